@@ -296,6 +296,31 @@ CHECKS["C10"] = (
         "only).")
 
 
+CHECKS["C15"] = (
+    "Lean 4 proof about an executable memo/closure machine instantiated by a table of cache guards lifted from the live "
+    "source (AST) + exact correspondence + pool-vs-fresh history exploration on the implementation",
+    "Theorems for ALL finite call histories, all pure cached computations, all valid NumPy arrays: a memo machine "
+    "(association store, hit returns the stored value, eviction that only drops entries and keeps the newest) returns "
+    "f(arg) for every call of every history IFF the key separates f (both directions; also from any warm state); the "
+    "decision table guard x view is sound AND complete (equal keys force equal views exactly for the entries marked "
+    "sound; concrete valid witnesses otherwise), hence a cache site is transparent for every cached computation that "
+    "reads only its view IFF the table says so; (shape, dtype, little-endian bytes) determines the array for all valid "
+    "arrays while bytes alone do not (int64 [1] / int32 [1,0], and a whole family); dataclasses.replace drops the lazily "
+    "attached attributes (and a copy that kept them is refuted); repaired solver closures hand the backend exactly what "
+    "a fresh closure would after ANY history and leave the captured dict unchanged, old closures are refuted by 2-call "
+    "histories. The table (29 cache sites, 6 closures, frame scan) is regenerated from the guard expressions of the live "
+    "source on every run, so a weakened guard changes the generated file and breaks C15_generated_sites_sound. "
+    "Correspondence (exact): tobytes, hash_args key equality, hit/miss of the Legendre elements, which earlier call "
+    "serves each call of a history (object identity) for MappingIsoparametric.J / lbasis / ElementGlobal.V / 24 set-once "
+    "attributes, keyword dicts handed to spy backends and the closure cells of all six solver factories. Search: random "
+    "histories (<=40 ops quick, <=200 thorough) over a shared pool of meshes of every class, reused element objects, "
+    "mappings, Cell/Facet/InteriorFacet/Composite bases, shared forms, six solver closures; each op replayed on freshly "
+    "built equal objects (ints bitwise, floats 1e-12, exception kind), operand checksums before/after, a sample re-run in "
+    "a new interpreter.",
+    "partial: purity of the cached computations w.r.t. the lifted view and absence of OTHER hidden state in 18 kLoC are "
+    "explored (histories, checksums, frame scan), not proved; hash() treated as injective; signed zeros/NaN in the "
+    "numeric point comparison not modelled")
+
 NOT_YET = {}
 
 
